@@ -47,8 +47,9 @@ def main():
         for t in tr:
             t = copy.deepcopy(t)
             for w in t["wins"]:
-                if w["done"]:
-                    w["done"].pop(0)
+                real = [i for i, e in enumerate(w["done"]) if e["e"] != "cancelmark"]     # (the mark is the harness' bookkeeping, not a completion)
+                if real:
+                    w["done"].pop(real[0])
                     bad.append(t)
                     break
         acc, rej, _ = trace_i.bind("Stage", bad, d, tag="bade")
